@@ -309,6 +309,9 @@ def replay_h_levels_with_nulls(n, present, v2):
     import fastparquet
     from fastparquet import writer as w
     from fastparquet.cencoding import ThriftObject, NumpyIO
+    if n >= 2:
+        present = min(max(present, 1), n - 1)       # the level framing does not depend on how many rows are present;
+    #                                                 one present value makes a misplaced value section observable
     vals = np.array([float(i + 1) if i < present else np.nan for i in range(n)])
     d = tempfile.mkdtemp(prefix="c02-")
     old = w.DATAPAGE_VERSION
